@@ -140,6 +140,8 @@ type child struct {
 	nextCtx  int
 	allCtx   []*ctxModel
 	fatalErr atomic.Bool
+	frames   map[uint64]*frameInfo // physical frames of freed buffers (freealloc.go)
+	buddy    bool                  // the driver uses the buddy allocator
 }
 
 func (c *child) count(k string, n int64) { c.mu.Lock(); c.cnt[k] += n; c.mu.Unlock() }
@@ -478,6 +480,10 @@ func (c *child) buildCtx(ls layoutSpec, r *vlib.PRNG, parent *ctxModel) *ctxMode
 	}
 	m.pagePA = make([]uint64, off/pageSize)
 	m.pageDv = make([]int, off/pageSize)
+	m.frameFrom = make([]*frameInfo, off/pageSize)
+	for pg := 0; pg < off/pageSize; pg++ {
+		m.pageVA = append(m.pageVA, m.base+uint64(pg*pageSize))
+	}
 	m.refreshPages(d, 0, off/pageSize)
 	for q := 0; q < ls.NQ; q++ {
 		g := 1 + (q+m.id)%ng
@@ -496,8 +502,9 @@ type thread struct {
 	slot int
 	r    *vlib.PRNG
 	ms   []*ctxModel
-	nOps int // generated copy ops so far
-	fq   int // forced queue (canonical cases): noForce, -1 = blocking API, >= 0 queue index
+	nOps int       // generated copy ops so far
+	seg  *ctxModel // the context whose buffers are freed and re-allocated in mid-history (freealloc.go)
+	fq   int       // forced queue (canonical cases): noForce, -1 = blocking API, >= 0 queue index
 }
 
 const noForce = -1000
@@ -595,6 +602,7 @@ func (th *thread) h2d(m *ctxModel, off, n int, t elemType, blocking bool, purpos
 	c := th.c
 	raw := make([]byte, n)
 	th.r.Bytes(raw)
+	m.mustBeLive(off, n)
 	q := th.queueFor(m, off, n, blocking)
 	cl := m.classify(off, n)
 	o := opRec{Idx: len(m.ops), Kind: "h2d", Off: off, N: n, Type: t.Name, Q: q, Class: cl.String(), Extra: purpose}
@@ -613,6 +621,7 @@ func (th *thread) h2d(m *ctxModel, off, n int, t elemType, blocking bool, purpos
 
 func (th *thread) d2h(m *ctxModel, off, n int, t elemType, blocking bool, purpose string, after int) {
 	c := th.c
+	m.mustBeLive(off, n)
 	q := th.queueFor(m, off, n, blocking)
 	cl := m.classify(off, n)
 	o := opRec{Idx: len(m.ops), Kind: "d2h", Off: off, N: n, Type: t.Name, Q: q, Class: cl.String(), Extra: purpose}
@@ -649,6 +658,7 @@ func (th *thread) blockingCall(what string, f func()) {
 func (th *thread) kernel(m *ctxModel, off, nElem int, op kern.Op, cst uint32, blocking bool) {
 	c := th.c
 	n := 4 * nElem
+	m.mustBeLive(off, n)
 	q := th.queueFor(m, off, n, false)
 	_ = blocking
 	key := [2]int{q, int(op)}
@@ -809,6 +819,8 @@ func (th *thread) kernelSweep(m *ctxModel, off, nElem, passes int, op kern.Op, c
 // DRAM banks busy while copies of other queues run.
 func (th *thread) d2dKernel(m *ctxModel, dstOff, srcOff, n int) {
 	c := th.c
+	m.mustBeLive(dstOff, n)
+	m.mustBeLive(srcOff, n)
 	q := th.queueFor(m, dstOff, n, false)
 	if m.conflict(q, srcOff, n) {
 		th.drainAll()
@@ -832,7 +844,7 @@ func (th *thread) drainAll() {
 		q int
 	}
 	var qs []qq
-	for _, m := range th.ms {
+	for _, m := range th.all() {
 		for q := range m.busyQ {
 			qs = append(qs, qq{m, q})
 		}
@@ -846,7 +858,7 @@ func (th *thread) drainAll() {
 	for _, i := range th.r.Perm(len(qs)) {
 		c.drain(th.slot, qs[i].m.queues[qs[i].q])
 	}
-	for _, m := range th.ms {
+	for _, m := range th.all() {
 		for _, pd := range m.pend {
 			th.check(m, pd)
 		}
@@ -880,6 +892,9 @@ func (th *thread) check(m *ctxModel, pd *pendingRead) {
 			g[j] = int32(pd.op.Idx)
 		}
 		return
+	}
+	if m.segmented {
+		c.auditFrames("a mismatching D2H")
 	}
 	i := 0
 	for i < len(got) && got[i] == pd.want[i] {
@@ -971,7 +986,17 @@ func (th *thread) check(m *ctxModel, pd *pendingRead) {
 		}
 	}
 	m.broken = true
-	key := fmt.Sprintf("C11|%s|%s|%s", c.path, symptom, strings.Split(culprit, "/")[0]) + m.rehomeTag(o, w, pd.op.Idx)
+	if w != nil && w.Kind == "h2d" && m.holdsBytesOfFreedBuffer(o, got[i]) && probe != "device-byte-correct" {
+		// the H2D's bytes were replaced by what the freed previous owner of the frame held
+		symptom, culprit = "h2d-overwritten-by-bytes-of-freed-buffer", "reused-frame"
+		if c.path == "dma" {
+			symptom = "h2d-overwritten-by-stale-l2-lines-of-freed-buffer"
+		}
+	}
+	key := fmt.Sprintf("C11|%s|%s|%s", c.path, symptom, strings.Split(culprit, "/")[0]) + m.rehomeTag(o, w, pd.op.Idx) + m.reuseTag(o)
+	if c.buddy {
+		key += "|buddy-allocator"
+	}
 	var wstr, lwstr string
 	if w != nil {
 		wstr = w.String()
@@ -983,7 +1008,7 @@ func (th *thread) check(m *ctxModel, pd *pendingRead) {
 		fmt.Sprintf("%s of ctx%d arena [%d,+%d) as %s: byte %d (arena offset %d, page %d of the arena, device %d) is 0x%02x, shadow says 0x%02x; %d of %d bytes differ; last writer of that byte: %s; most recent write: %s",
 			pd.purpose, m.id, pd.op.Off, pd.op.N, pd.op.Type, i, o, o/pageSize, m.pageDv[o/pageSize], got[i], pd.want[i], nDiff, len(got), wstr, lwstr),
 		map[string]any{"reader": pd.op.String(), "first_diff_arena_offset": o, "one_byte_probe": probe, "got_equals_value_before_last_write": stale,
-			"layout": m.bufs, "page_paddr": hexes(m.pagePA), "recent_ops": m.tailOps(25), "queue_gpus": m.qGPU, "rehoming_history_of_that_page": m.rehomeHistory(o / pageSize)})
+			"previous_owner_of_that_frame": m.frameFrom[o/pageSize].String(), "layout": m.bufs, "page_paddr": hexes(m.pagePA), "recent_ops": m.tailOps(25), "queue_gpus": m.qGPU, "rehoming_history_of_that_page": m.rehomeHistory(o / pageSize)})
 }
 
 func allEE(got, want []byte) bool {
@@ -1176,6 +1201,10 @@ func (th *thread) step() {
 		th.rehomeStep()
 		return
 	}
+	if r.Chance(1, freeAllocEvery[c.path]) {
+		th.freeAllocStep()
+		return
+	}
 	m := th.ms[r.Intn(len(th.ms))]
 	maxLen := 5 * pageSize
 	if c.path != "emu" {
@@ -1260,7 +1289,7 @@ func (th *thread) step() {
 		th.drainAll()
 	}
 	nclaims := 0
-	for _, mm := range th.ms {
+	for _, mm := range th.all() {
 		nclaims += len(mm.claims)
 	}
 	if nclaims > 6 {
@@ -1396,10 +1425,15 @@ func childMain() {
 	sim.GetIDGenerator()
 
 	pc := plat.Config{NumGPUs: cfg.NGPU}
-	switch {
-	case cfg.Kind == "emu" || strings.HasPrefix(cfg.Kind, "canon-emu"):
+	c.frames = map[uint64]*frameInfo{}
+	if strings.HasSuffix(cfg.Kind, "-buddy") {
+		c.buddy = true
+		driver.VerifUseBuddyAllocator(true) // before the platform registers its devices
+	}
+	switch kindPath(cfg.Kind) {
+	case "emu":
 		c.path = "emu"
-	case cfg.Kind == "tmagic" || strings.HasPrefix(cfg.Kind, "canon-tmagic"):
+	case "tmagic":
 		c.path = "tmagic"
 		pc.Timing, pc.MagicCopy = true, true
 	default:
@@ -1422,6 +1456,8 @@ func childMain() {
 	if strings.HasPrefix(cfg.Kind, "canon-") {
 		c.scen = cfg.Kind
 		c.canonical(cfg.Kind)
+	} else if strings.Contains(cfg.Kind, "-fa") {
+		c.faScenario(rng.Fork("fa"), cfg.Ops)
 	} else {
 		done := 0
 		for si := 0; done < cfg.Ops; si++ {
